@@ -479,6 +479,72 @@ def domain_traces():
     return checked, problems
 
 
+def nesting_traces():
+    """Subgraphs nested two and three levels deep whose graphs carry the SAME name (the default, or one given by the caller) and the
+    same operators at the same positions, capturing values of every enclosing level.  Verdicts: structural validity (no name
+    redefined in a nested scope, SSA), onnx.checker, and the values on two concrete inputs against NumPy -- labelled enumeration."""
+    import onnx
+    import onnxscript
+    from vp.symonnx import replay as R
+    from vp.symonnx import wellformed as W
+    problems, checked = [], 0
+
+    def val(nm):
+        return ir.Value(name=nm, type=ir.TensorType(DT.FLOAT), shape=ir.Shape([2]))
+
+    for names in (None, ("body", "body", "body"), ("a", "b", "c")):
+        for depth in (2, 3):
+            g = ir.Graph(name="nest", inputs=[], outputs=[], nodes=[], opset_imports={"": 18})
+            x = val("x")
+            c = ir.Value(name="c", type=ir.TensorType(DT.BOOL), shape=ir.Shape([]))
+            g.inputs.extend([x, c])
+            gb = onnxscript.GraphBuilder(g)
+
+            def level(builder, src, d, lvl):
+                kw = {} if names is None else {"name": names[lvl]}
+
+                def then_fn(op2):
+                    t = op2.Add(src, 1.0)
+                    if d > 1:
+                        inner = level(op2.builder, t, d - 1, lvl + 1)
+                        return op2.Mul(inner, t)
+                    u = op2.Add(t, t)
+                    return op2.Mul(u, t)
+                tb = builder.subgraph(then_fn, inputs=[], outputs=[val(f"then_out_{lvl}")], **kw)
+                eb = builder.subgraph(lambda op2: op2.Neg(src), inputs=[], outputs=[val(f"else_out_{lvl}")], **kw)
+                return builder.op.If(c, then_branch=tb, else_branch=eb)
+            tag = f"nested If depth={depth} subgraph names={'default' if names is None else names[:depth]}"
+            try:
+                y = level(gb, x, depth, 0)
+                y.type, y.shape = ir.TensorType(DT.FLOAT), ir.Shape([2])
+                g.outputs.append(y)
+                mp = ir.to_proto(ir.Model(g, ir_version=9))
+            except Exception as e:  # noqa: BLE001
+                problems.append(f"{tag}: building raised {type(e).__name__}: {str(e)[:160]}")
+                continue
+            checked += 1
+            bad = [p for p in W.check_model(mp)]
+            for p in bad:
+                problems.append(f"{tag}: {p}")
+            try:
+                onnx.checker.check_model(mp, full_check=True)
+            except Exception as e:  # noqa: BLE001
+                problems.append(f"{tag}: onnx.checker: {str(e)[:160]}")
+                continue
+            if bad:
+                continue
+            for xv in (np.array([1.0, -2.0], dtype=np.float32), np.array([0.5, 3.0], dtype=np.float32)):
+                for cv in (True, False):
+                    def ref(v, d):
+                        t = v + 1.0
+                        return (ref(t, d - 1) * t) if d > 1 else ((t + t) * t)
+                    want = ref(xv, depth) if cv else -xv
+                    outs, err = R.ort_run(mp.SerializeToString(), {"x": xv, "c": np.array(cv)})
+                    if err or not np.allclose(outs[0], want, rtol=1e-5):
+                        problems.append(f"{tag}: x={xv.tolist()} c={cv}: graph {None if err else outs[0].tolist()} ({err}) vs trace {want.tolist()}")
+    return checked, problems
+
+
 def main(tier: str, only=None) -> int:
     run = common.Run("C18", tier, "translation_validation")
     n = 120 if tier == "quick" else 2000
@@ -539,6 +605,10 @@ def main(tier: str, only=None) -> int:
     for p in dom_problems:
         report("domain_trace", "validity", p)
     run.coverage["non_default_domain_traces_checked"] = dom_checked
+    nest_checked, nest_problems = nesting_traces()
+    for p in nest_problems:
+        report("nesting_trace", "validity", p)
+    run.coverage["nested_subgraph_traces_checked"] = nest_checked
     from onnxscript._internal import builder as B
     run.coverage.update({
         "programs": len(traces) + len(call_res), "disagreements_checked": counts.get("cex", 0),
